@@ -361,7 +361,7 @@ func TestVerif_C03_RecoverSignature(t *testing.T) {
 		desc2 := c03RenderLayout(layout2, p.indices, skipI2)
 		got2 := recoverSig(build(layout2, skipI2), desc2, c03Tag(before2))
 		if !bytes.Equal(got2.Marshal(), got.Marshal()) {
-			t.Fatalf("two lists of valid shares of one polynomial recover different signatures: %s vs %s (threshold %d)%s", desc, desc2, p.threshold, c03Tag(before||before2))
+			t.Fatalf("two lists of valid shares of one polynomial recover different signatures: %s vs %s (threshold %d)%s", desc, desc2, p.threshold, c03Tag(before || before2))
 		}
 		// too few valid shares: an error, never a signature
 		if p.threshold >= 1 {
@@ -458,7 +458,7 @@ func TestVerif_C03_RecoverPublicKey(t *testing.T) {
 		desc2 := c03RenderLayout(layout2, p.indices, skipI2)
 		got2 := recoverKey(build(layout2, skipI2), desc2, c03Tag(before2))
 		if !bytes.Equal(got2.Marshal(), got.Marshal()) {
-			t.Fatalf("two lists of valid public key shares recover different keys: %s vs %s (threshold %d)%s", desc, desc2, p.threshold, c03Tag(before||before2))
+			t.Fatalf("two lists of valid public key shares recover different keys: %s vs %s (threshold %d)%s", desc, desc2, p.threshold, c03Tag(before || before2))
 		}
 		// a signature by the recovered key's secret verifies under it (ties the
 		// two recoveries together through the pairing)
